@@ -8,8 +8,46 @@ LEVEL = "other"
 LEAN_IMPORTS = ["WM.Props.C16"]
 THEOREMS = ["WM.C16.total_filterize", "WM.C16.total", "WM.C16.total_multifield", "WM.C16.total_simple",
             "WM.C16.precedence", "WM.C16.precedence_default", "WM.C16.precedence_meaning", "WM.C16.fields",
-            "WM.C16.total_query_partial"]
+            "WM.C16.total_query_partial", "WM.C16.gtlt_meaning", "WM.C16.wildcard_prefix_sound",
+            "WM.C16.query_meaning", "WM.C16.precedence_query"]
+_TOTAL_HYP = (
+    "carries two unproved hypotheses: `hns` (the taggers only emit a flat list of the node kinds of `defaultTagged` / "
+    "`simpleTagged`; the tagger regular expressions are not modelled - every run compares the model with the real "
+    "tag()/filterize() output, no proof) and `ho : leavesOk` (a leaf's own query() raises at most QueryParserError; "
+    "the field types, analyzers and dateparse are explored by fuzzing only). parse()'s trailing q.normalize() and "
+    "the half of the property 'searching the parsed query raises at most QueryError' have no theorem at all: "
+    "end-to-end fuzzing (exploration)")
+_PREC_HYP = (
+    "narrower than the property text: the expression language `Expr` has words/phrases/wildcards/ranges as atoms, "
+    "parentheses, NOT and the five infix operators, but no boost and no field-prefix constructor; "
+    "`precedence_default` also excludes wildcard atoms (`hplain`); `fields` is about do_fieldnames in isolation and "
+    "is not composed with the precedence theorems; nothing is proved about the meaning of do_boost. Expressions "
+    "with field prefixes, wildcards, ranges and comparison signs are only checked end to end (documents expected by "
+    "an oracle that does not use the parser)")
 PARTIAL = {
+    "WM.C16.total": _TOTAL_HYP,
+    "WM.C16.total_multifield": _TOTAL_HYP,
+    "WM.C16.total_simple": _TOTAL_HYP,
+    "WM.C16.precedence": _PREC_HYP,
+    "WM.C16.precedence_default": _PREC_HYP,
+    "WM.C16.precedence_meaning":
+        "about `Node.eval`, the reading of the syntax tree; the link to the query object that the group nodes' "
+        "query() builds is `query_meaning` / `precedence_query`",
+    "WM.C16.query_meaning":
+        "under the hypothesis that every leaf yields a (truthy) query; when a leaf yields None (a stop word) the group "
+        "nodes drop it - `query_not_none` (NOT <nothing> is nothing), `query_binary_none` (`a ANDNOT <nothing>` is a, "
+        "`<nothing> ANDNOT b` is b), `query_compound_none` state those cases, they are not folded into a reading. "
+        "`Q.eval` is the classical reading of And/Or/DisMax/Not/AndNot/AndMaybe/Require; that the query classes' "
+        "matchers implement it is C01's subject, and what parse()'s trailing normalize() does to the query is C15's",
+    "WM.C16.precedence_query":
+        "same hypotheses as query_meaning; parse()'s trailing normalize() is not part of the model",
+    "WM.C16.fields":
+        "do_fieldnames alone (one prefix, one following node or group), not composed with the other filters",
+    "WM.C16.gtlt_meaning":
+        "GtLtPlugin.make_range only (the six spellings -> open range); the numeric field's parse_range is not modelled "
+        "(any monotone reading `num` of the text); end to end: comparison atoms in the well-formed stream",
+    "WM.C16.wildcard_prefix_sound":
+        "WildcardNode -> Prefix rewriting only; the Wildcard/Prefix query classes' own matching is C19/C01",
     "WM.C16.total_query_partial":
         "query() is total on `clean` trees (no marker node left, binary groups with at most two operands) given "
         "leaves that raise at most QueryParserError. `WM.C16.total`, `total_multifield`, `total_simple` discharge "
@@ -290,7 +328,7 @@ WF_CONFIGS = ["default", "or", "or-scaled", "multifield", "modelled-all", "fuzzy
 WF_PLAIN = {"default", "or", "or-scaled", "fuzzy", "gtlt", "default-k", "default-p"}
 
 
-WF_RICH = {"default", "or", "or-scaled"}
+WF_RICH = {"default", "or", "or-scaled", "gtlt", "multifield"}
 
 
 def _wf_work(args):
@@ -304,6 +342,10 @@ def _wf_work(args):
     gk = G.gk_of_class(p.group)
     ix = G.get_index()
     rich = name in WF_RICH
+    mfields = None
+    for pl in p.plugins:
+        if isinstance(pl, G.plugins.MultifieldPlugin):
+            mfields = list(pl.fieldnames)
     thedocs = G.make_docs()
     out = []
     with ix.searcher() as searcher:
@@ -328,9 +370,13 @@ def _wf_work(args):
                 for a in atoms:
                     if a not in leafdocs:
                         if rich:
-                            fld = a[1] or p.fieldname
-                            lq = G.direct_leaf_query(a[0], fld)
-                            leafdocs[a] = (lq, set(d for d in alldocs if G.leaf_matches(thedocs[d], a[0], fld)))
+                            # an atom without a field prefix is asked of the default field, or of
+                            # any of the default fields of a Multifield parser
+                            flds = [a[1]] if a[1] else (mfields or [p.fieldname])
+                            lqs = [G.direct_leaf_query(a[0], fld) for fld in flds]
+                            lq = lqs[0] if len(lqs) == 1 else G.query.Or(lqs)
+                            leafdocs[a] = (lq, set(d for d in alldocs
+                                                   if any(G.leaf_matches(thedocs[d], a[0], fld) for fld in flds)))
                         else:
                             stage = "parse"
                             lq = p.parse(a[0])
@@ -352,6 +398,9 @@ def _wf_work(args):
                 q2 = (G.query.Or if gk == "or" else G.query.And)([G.intended_query(e, leafq, gk) for e in res])
                 rec["d2"] = sorted(docs(q2))
                 rec["q1"] = repr(q1)
+                rec["q1n"] = repr(q1n)
+                # a clause that normalize() turns into NullQuery (an empty range such as [a TO a})
+                rec["nullclause"] = any(lf.normalize() is G.query.NullQuery for lf in q1n.leaves())
                 # per document: which leaves match it
                 per = []
                 for d in alldocs:
@@ -442,11 +491,38 @@ def _wellformed(ctx):
     must select the documents the Lean `evalSeq` selects."""
     from gen import parser as G
     rng = ctx.rng("wellformed")
-    n = ctx.budget(120, 1500)
+    n = ctx.budget(220, 1500)
     cases, rcases = [], []
+    gcases = []
     for _ in range(n):
         cases.append([G.gen_expr(rng, 6) for _ in range(rng.choice((1, 1, 2, 2, 3)))])
         rcases.append([G.gen_expr(rng, 6, rich=rng.random() < 0.6) for _ in range(rng.choice((1, 1, 2, 2, 3)))])
+        gcases.append([G.gen_expr(rng, 6 if rng.random() < 0.5 else 3, rich=True, gtlt=True)
+                       for _ in range(rng.choice((1, 1, 2)))])
+    # every spelling of the comparison operators on its own
+    for rel in G.CMP_RELS:
+        for fld in sorted(G.CMP_FIELDS):
+            lo, hi, step = G.CMP_FIELDS[fld]
+            v = lo + step * rng.randint(1, int((hi - lo) / step) - 1)
+            gcases.append([("field", fld, ("atom", rel + (("%g" % v) if step != 1 else ("%d" % v))))])
+    # ranges: every bracket combination on every kind of field on its own (dates are partial dates
+    # that stand for periods), and ranges without a field prefix (asked of the default field(s))
+    for fld in sorted(set(G.RANGE_FIELDS)):
+        for _ in range(ctx.budget(2, 8) if fld == "d" else 1):
+            base = G._range_atom(rng, fld)
+            a, b = G.parse_range_atom(base[2][1])[:2]
+            for sx in (False, True):
+                for ex in (False, True):
+                    rcases.append([("field", fld, ("atom", G.range_text(a or "", b or "", sx, ex)))])
+    for _ in range(ctx.budget(6, 40)):
+        w = rng.choice(G.WORDS)
+        rcases.append([G._range_atom(rng, rng.choice(("t", "k")), fielded=False)])
+        rcases.append([("atom", w), G._range_atom(rng, "t", fielded=False)])
+        rcases.append([("op", "or", [("atom", w), G._range_atom(rng, "k", fielded=False)])])
+    # an empty range under AND / NOT (normalize() makes it NullQuery: recorded finding)
+    rcases.append([("op", "and", [("field", "k", ("atom", "[juliet TO juliet}")), ("field", "t", ("atom", "bravo"))])])
+    # two nested text ranges on one field under AND (normalize() merges them: recorded finding)
+    rcases.append([("op", "and", [("field", "k", ("atom", "{bravo TO echo}")), ("field", "k", ("atom", "{bravo TO lima}"))])])
     # field-scoping templates (inner prefix wins, a prefix reaches exactly the next node or group)
     for _ in range(ctx.budget(12, 150)):
         w = rng.sample(G.WORDS, 4)
@@ -458,7 +534,7 @@ def _wellformed(ctx):
                                       ("not", ("field", f1, ("atom", w[3])))])])
     jobs = []
     for name in WF_CONFIGS:
-        cs = rcases if name in WF_RICH else cases
+        cs = gcases if name == "gtlt" else (rcases if name in WF_RICH else cases)
         for a in range(0, len(cs), 125):
             jobs.append((name, cs[a:a + 125]))
     recs = [r for part in ctx.pmap(_wf_work, jobs) for r in part]
@@ -510,17 +586,32 @@ def _wellformed(ctx):
     classes = _classify(ctx, bad) if bad else {}
     for rec in bad:
         case = {"config": rec["cfg"], "text": rec["text"], "query": rec.get("q1"), "items": rec["items"]}
-        if "ANDNOT" in rec["text"]:
-            # the AndNot matcher lets forbidden documents through depending on the shape of the
-            # surrounding tree (known finding): every disagreement on an expression with an ANDNOT is
-            # filed there; a wrong *tree* for such an expression is still reported by precedence:tree
-            sig = "meaning:query-layer:involves-ANDNOT"
-        elif rec["d1n"] != rec["d2"]:
+        if rec["d1n"] != rec["d2"]:
             sig = "meaning:parser"
         elif rec["d1"] != rec["d1n"]:
-            # normalize() changed what the parsed query selects (C15); the known cause is an Every
-            # (from `*`) next to other clauses of its field
-            sig = "meaning:normalize-changes-result:" + ("with-Every" if "Every(" in (rec.get("q1") or "") or "*" in rec["text"] else "other")
+            # normalize() changed what the parsed query selects (C15); the known cause is a fielded
+            # Every (a lone `*`) that absorbs sibling clauses of other kinds: `foxtrot AND *` becomes
+            # Every('t'). Only that shape gets the known signature: the query before normalize()
+            # must contain an Every
+            # (or the all-stars Wildcard that normalize() turns into one) and the normalized query
+            # an Every.
+            import re
+            q1n = rec.get("q1n") or ""
+            has_every = "Every(" in q1n or re.search(r"Wildcard\('[^']*', '\*+'", q1n) is not None
+            # The other known cause (C15 findings And-drops-NullQuery-clause / Not-of-NullQuery):
+            # a clause that normalize() turns into NullQuery - an empty range such as
+            # `k:[juliet TO juliet}` - is dropped from an And, or makes its NOT match nothing.
+            # The third (C15 finding And-merges-overlapping-TermRanges): two overlapping text ranges on
+            # one field under AND are merged into one range, the outer one when they are nested.
+            q1 = rec.get("q1") or ""
+            rng_before = re.findall(r"TermRange\('([^']*)'", q1n)
+            rng_after = re.findall(r"TermRange\('([^']*)'", q1)
+            merged = any(rng_before.count(f) >= 2 and rng_after.count(f) < rng_before.count(f) for f in set(rng_before))
+            sig = "meaning:normalize-changes-result:" + (
+                "with-Every" if has_every and "Every(" in q1
+                else "with-null-clause" if rec.get("nullclause")
+                else "with-merged-ranges" if merged else "other")
+            case["query_before_normalize"] = rec.get("q1n")
         elif id(rec) in classes:
             shape, sub = classes[id(rec)]
             sig = "meaning:query-layer:" + shape
@@ -556,7 +647,7 @@ def run(ctx):
             cfgs[name] = G.s_cfg(G.get_parser(name))
         except G.Unsupported as e:
             ctx.note("configuration %s is end-to-end only: %s" % (name, e))
-    strings = _strings(ctx, ctx.budget(350, 4000), ctx.budget(250, 2500))
+    strings = _strings(ctx, ctx.budget(600, 4000), ctx.budget(450, 2500))
     jobs = []
     chunk = 100
     for name in names:
@@ -612,9 +703,17 @@ EXPLANATION = (
     "failures are shrunk and keyed by exception type + innermost whoosh function. (3) Well-formed expressions: "
     "generated trees of the documented language are printed; the real tagger must produce the Lean `toksSeq`, the "
     "real filter pipeline the Lean `outSeq`, and the documents found by parse(text) must be the documents the Lean "
-    "`evalSeq` selects, the leaves being decided by an oracle that does not use the parser."
+    "`evalSeq` selects, the leaves being decided by an oracle that does not use the parser: words, phrases, wildcard "
+    "patterns with one or several stars (fnmatch over the stored words), comparisons in all six spellings of "
+    "GtLtPlugin, and ranges with the four bracket combinations on date (partial dates = periods), numeric and text "
+    "fields (stored values compared directly), with and without a field prefix, on single-field and Multifield parsers."
 )
 ASSUMPTIONS = [
+    "the taggers emit a flat list of the node kinds listed in `defaultTagged`/`simpleTagged` (hypothesis `hns` of "
+    "total/total_multifield/total_simple; compared with the real tagger on every run, not proved)",
+    "a leaf's query() raises at most QueryParserError (hypothesis `leavesOk`; explored by fuzzing every shipped field type)",
+    "every leaf of a well-formed expression yields a query (hypothesis of query_meaning/precedence_query; false for "
+    "stop words, whose None cases are stated separately)",
     "model mirrors qparser/default.py, plugins.py, syntax.py as far as the differential streams show (sampled, not proved)",
     "leaf layer (field.parse_query/parse_range, analyzers, dateparse grammar, tagger regular expressions) is not modelled: "
     "its totality is exploration by fuzzing",
@@ -634,9 +733,13 @@ MANIFEST = {
                   "the pipeline builds exactly the intended tree, which selects exactly the documents its reading "
                   "selects; (c) a field prefix scopes over exactly the next node/group; (d) for the default plug-in set, "
                   "MultifieldParser, SimpleParser and DisMaxParser every flat list of taggable nodes yields a tree on which "
-                  "query() returns a query or raises QueryParserError (no IndexError/AssertionError/NotImplementedError). Tied to the code on every run by a differential correspondence "
-                  "check on the real tag()/filterize()/query(), plus grammar-aware end-to-end fuzzing of all 41 shipped "
-                  "configurations x 11 field types (parse and search) and generated well-formed expressions evaluated "
+                  "query() returns a query or raises QueryParserError (no IndexError/AssertionError/NotImplementedError); (e) on the "
+                  "tree of a well-formed expression whose leaves all yield queries the group nodes' query() returns a query "
+                  "object that selects exactly the documents of the reading (None cases stated separately); (f) the six "
+                  "comparison spellings of GtLtPlugin denote the right half-lines and a wildcard is only rewritten to a prefix "
+                  "query when both select the same words. Tied to the code on every run by a differential correspondence "
+                  "check on the real tag()/filterize()/query(), plus grammar-aware end-to-end fuzzing of all 48 "
+                  "configurations x 20 field types (parse and search) and generated well-formed expressions evaluated "
                   "against the Lean reading.",
     "level_note": "Level `other`: proof for the modelled filter pipeline; the regular expressions of the taggers, the "
                   "field types' own parsing, the analyzers and dateparse's grammar are only fuzzed (exploration). "
